@@ -24,8 +24,13 @@ Definition heights_after (r : replica) (logs : list (N * list N)) : list (N * N 
 Definition show_heights_after (hs : list (N * N * N)) : string :=
   show_list (fun x => show_N (fst (fst x)) ++ "." ++ show_N (snd (fst x)) ++ "=" ++ show_N (snd x)) "," hs.
 
-Definition model_line (logsA logsB : list (N * list N)) (rA rB : replica) : string :=
-  let y := sim (N.to_nat 200000) true None rA rB fair (sys0 logsA logsB dedup_capacity) in
+(** [cbuf = None]: unbounded in-memory channels; [cbuf = Some c]: the session runs over
+    [futures::mpsc::channel(c)] (transport model of C21).  By [C19_script] / [C19_received_exact]
+    the line does not depend on [cbuf] whenever the run finishes; the bounded runs are generated
+    only where [C21_outside_known] guarantees that ([c >= 1], one side's sync-phase messages fit
+    into [c]). *)
+Definition model_line_c (cbuf : option nat) (logsA logsB : list (N * list N)) (rA rB : replica) : string :=
+  let y := sim (N.to_nat 200000) true cbuf rA rB fair (sys0 logsA logsB dedup_capacity) in
   let evA := ev_ops (n_hist (sa y)) in
   let evB := ev_ops (n_hist (sb y)) in
   (if finished y then "done" else "stuck")
@@ -33,6 +38,20 @@ Definition model_line (logsA logsB : list (N * list N)) (rA rB : replica) : stri
   ++ " | HA " ++ show_heights_after (heights_after (ingest rA evA) logsA)
   ++ " | B " ++ show_msgs (sent (n_hist (sb y))) ++ " | EB " ++ show_ops evB
   ++ " | HB " ++ show_heights_after (heights_after (ingest rB evB) logsB).
+
+Definition model_line := model_line_c None.
+
+(** Compact rendering of long runs of rows (consecutive sequence numbers, one size), used by the
+    python glue for logs with hundreds of entries: [rrun a l z s n] = rows [s .. s+n-1] of log
+    [(a, l)], each of size [z], with the operation id the generators use for [(a, l, seq)]. *)
+Definition opid (a l s : N) : N := ((a * 64 + l) * 100000 + s)%N.
+Fixpoint rrun (a l z s : N) (n : nat) : list row :=
+  match n with
+  | O => []
+  | S k => mkrow s (opid a l s) z :: rrun a l z (N.succ s) k
+  end.
+Definition oprun (a l z s : N) (n : nat) : list (N * N * row) := map (fun w => (a, l, w)) (rrun a l z s n).
+Definition msgrun (a l z s : N) (n : nat) : list msg := map (Operation a l) (rrun a l z s n).
 
 Definition row_eqb (x y : row) : bool :=
   N.eqb (r_seq x) (r_seq y) && N.eqb (r_id x) (r_id y) && N.eqb (r_size x) (r_size y).
